@@ -251,8 +251,10 @@ def replay_case(r, workdir):
         return True, "compiles but should not"
     env = dict(os.environ)
     env.update(r.get("env", {}))
-    rc, out, err, _s, to = run_cmd([exe] + [str(a) for a in r.get("args", [])], timeout=600, env=env)
+    rc, out, err, _s, to = run_cmd([exe] + [str(a) for a in r.get("args", [])], timeout=r.get("timeout", 600), env=env)
     if to:
+        if r.get("timeout_is_failure"):
+            return True, "does not terminate within %d s (normally microseconds)" % r.get("timeout", 600)
         return None, "inconclusive (timeout)"
     if r["mode"] == "pyjudge":
         import importlib
